@@ -8,7 +8,7 @@ Oracle : online automaton per boundary - create(k): k not live and no live key w
          anything that is not one of the five event types (or the topology probe) is reported; after
          on_error() the boundary is closed (an erroring stream owes no completions).
 """
-from ..common import Check, Outcome, bootstrap
+from ..common import Check, Outcome, bootstrap, with_prelude, prelude_tags, shrink_prelude, PRELUDE_TAGS
 from .. import gen, progs, model
 from ..muxmon import Monitor
 
@@ -44,10 +44,13 @@ class C03(Check):
                    'events after a boundary received on_error / on_completed are invisible to the subscriber (RxPY AutoDetachObserver) and are not judged']
     ANCHORS = ['rxsci/data/roll.py', 'rxsci/data/split.py', 'rxsci/data/time_split.py', 'rxsci/operators/group_by.py', 'rxsci/operators/tee_map.py',
                'rxsci/operators/multiplex.py', 'rxsci/state/with_store.py', 'rxsci/mux/muxobservable.py', 'rxsci/mux/muxconnectable.py']
-    REQUIRED_TAGS = ['depth>=3', 'empty-source', 'single-item', 'scale']
+    REQUIRED_TAGS = ['depth>=3', 'empty-source', 'single-item', 'scale'] + PRELUDE_TAGS
     REQUIRED_OBSERVED = ['boundary:' + k for k in KINDS] + ['events:create', 'events:next', 'events:completed', 'events:on_completed']
 
     def generate(self, rng, tier, shard, nshards):
+        return with_prelude(self._generate(rng, tier, shard, nshards), rng, size=lambda c: len(c['items']))
+
+    def _generate(self, rng, tier, shard, nshards):
         n = 3500 if tier == 'quick' else 10 ** 7
         for k in range(n):
             if tier == 'thorough' and k % 4 == 3:
@@ -91,7 +94,8 @@ class C03(Check):
         if nctx >= 2 or (nctx >= 1 and len(items) <= 1):
             out.nontrivial = True
         with Monitor() as mon:
-            snap = progs.run_mux(prog, items)
+            snap = progs.run_mux(prog, items, prelude=case.get('prelude'))
+        prelude_tags(case, out)
         for b in mon.boundaries:
             out.observed['boundaries_monitored'] += 1
             for kind, name in KINDS.items():
@@ -133,6 +137,7 @@ class C03(Check):
                 'distinct_boundary_kinds_monitored': sorted(self.kinds_seen)}
 
     def shrink(self, case):
+        yield from shrink_prelude(case)
         from .c11 import shrink_prog
         items = case['items']
         for k in range(len(items)):
